@@ -40,6 +40,11 @@ def dataset_specs(tier: str, purpose: str) -> list[dict]:
         {'family': 'ugrid', 'mesh': 'M7', 'ints': True},
         {'family': 'ugrid', 'mesh': 'M4', 'supplied': ['edge_node'], 'start_index': 1, 'fill': 'fillattr'},
         {'family': 'ugrid', 'mesh': 'M4', 'coords_as': 'coord', 'face_coords': True},
+        {'family': 'ugrid', 'mesh': 'M6', 'supplied': ['edge_node', 'face_face', 'edge_face'], 'start_index': 1, 'fill': 'fillattr',
+         'start_index_by_table': {'face_face': 0, 'edge_face': 0}, 'omit_zero_start_index': True, 'edge_face_missing_first': True},
+        {'family': 'ugrid', 'mesh': 'M7', 'supplied': ['face_face'], 'start_index_by_table': {'face_face': 1}, 'extra_width': 1},
+        {'family': 'cf1d', 'ny': 3, 'nx': 4, 'bounds_lat': 'var', 'bounds_lon': 'none', 'lat_kind': 'nonuni', 'lon_kind': 'nonuni'},
+        {'family': 'shoc_standard', 'nj': 3, 'ni': 3, 'fortran': True},
     ]
     if not quick:
         specs += [
